@@ -293,7 +293,7 @@ def g_k_unsigned():
 
 
 P("C19", lambda t: g_k_unsigned() + g_t1_long(cfgs=("s", "u")) + g_t1(t, cfgs=("s", "u")) + g_t3_lemma(t, cfgs=("s", "u")) + g_t4(cfgs=("s", "u")) + g_p3(t, cfgs=("s", "u"))
-  + g_p6(cfgs=("s", "u")) + (g_p4(t, cfgs=("s", "u")) if t == "thorough" else [I("p4_split", cfg=c, defs=["P4_LEN=12"], flags=UW(19), cap=300, rss=1.0) for c in ("s", "u")]))
+  + g_p6(cfgs=("s", "u")) + (g_p4(t, cfgs=("s",)) + g_p4("quick", cfgs=("u",)) if t == "thorough" else [I("p4_split", cfg=c, defs=["P4_LEN=12"], flags=UW(19), cap=300, rss=1.0) for c in ("s", "u")]))
 P("C20", lambda t: g_api() + g_p5() + [I("p2_layout"), I("p6_auto")], level="other")
 
 
